@@ -161,11 +161,13 @@ theorem deEventsAt_topClean : ∀ (q : List QEv) (d : Nat), TopClean d (deEvents
     split
     · simp [TopClean]
     · rename_i hc
-      simp only [TopClean]
-      refine ⟨fun hd => ?_, deEventsAt_topClean t d⟩
-      cases hw : raw.all isWs with
-      | true => rfl
-      | false => exact absurd ⟨hd, hw⟩ hc
+      split
+      · simp [TopClean]
+      · simp only [TopClean]
+        refine ⟨fun hd => ?_, deEventsAt_topClean t d⟩
+        cases hw : raw.all isWs with
+        | true => rfl
+        | false => exact absurd ⟨hd, hw⟩ hc
   | .cdata c :: t, d => by
     simp only [deEventsAt]
     split
